@@ -34,7 +34,11 @@ pub fn renderable(p: &Program, build: &str) -> bool {
     let f = features(p);
     let base = build.trim_end_matches("+O");
     match base {
-        "classic" => !(f.lets || f.assign || f.lambda || f.rest || f.fnval || f.defconst || f.at_pattern || f.nested_mod),
+        // (quote, qq and unquote are reserved words of the classic compiler: it rewrites every two-element list headed by
+        // quote before it looks at what the list is, a parameter list (W quote V) included; no classic program may use
+        // them as names)
+        "classic" => !(f.lets || f.assign || f.lambda || f.rest || f.fnval || f.defconst || f.at_pattern || f.nested_mod)
+            && !p.var_names().iter().any(|n| matches!(n.as_str(), "quote" | "qq" | "unquote")),
         "cl22" => !f.lambda && !f.defconst,
         "cl21" | "s21" => !f.defconst,
         _ => true,
@@ -389,6 +393,34 @@ pub fn mod_ladder() -> Vec<(Program, Vec<V>)> {
     out
 }
 
+/// NameLadder: variables whose names are also the names of operators and special forms (q, quote, qq, unquote, a, c, f,
+/// i, x), as a function parameter in first and in later position, a main parameter, a let / assign-bound name, a lambda
+/// capture and a lambda parameter.  A name in argument position is a variable whatever it is called.
+pub fn name_ladder() -> Vec<(Program, Vec<V>)> {
+    use crate::ast::{Expr, Helper, Pat};
+    let v = |n: &str| Expr::Var(n.to_string());
+    let pv = |n: &str| Pat::Var(n.to_string());
+    let lit = |n: i64| Expr::Lit(V::int(n));
+    let mut out = vec![];
+    for n in ["q", "quote", "qq", "unquote", "a", "c", "f", "i", "x"] {
+        let envs = vec![V::list(&[V::int(5), V::int(9)]), V::list(&[V::int(0), V::int(1)])];
+        let main = |helpers: Vec<Helper>, body: Expr| Program { args: Pat::list(vec![pv("P1"), pv("P2")], Pat::Nil), helpers, body };
+        for inline in [false, true] {
+            out.push((main(vec![Helper::Defun { name: "nfirst".into(), pat: Pat::list(vec![pv(n), pv("W")], Pat::Nil), body: Expr::Prim(17, vec![v(n), v("W")]), inline }],
+                Expr::Call("nfirst".into(), vec![v("P1"), v("P2")], None)), envs.clone()));
+            out.push((main(vec![Helper::Defun { name: "nlater".into(), pat: Pat::list(vec![pv("W"), pv(n), pv("V")], Pat::Nil), body: Expr::Prim(17, vec![v(n), Expr::Prim(16, vec![v("W"), v("V")])]), inline }],
+                Expr::Call("nlater".into(), vec![v("P1"), v("P2"), lit(3)], None)), envs.clone()));
+            out.push((main(vec![Helper::Defun { name: "ndeep".into(), pat: Pat::list(vec![Pat::list(vec![pv("W"), pv(n)], Pat::Nil), pv("V")], Pat::Nil), body: Expr::Prim(17, vec![v(n), Expr::Prim(16, vec![v("W"), v("V")])]), inline }],
+                Expr::Call("ndeep".into(), vec![Expr::List(vec![v("P1"), v("P2")]), lit(3)], None)), envs.clone()));
+        }
+        out.push((Program { args: Pat::list(vec![pv("P1"), pv(n)], Pat::Nil), helpers: vec![], body: Expr::Prim(17, vec![v(n), v("P1")]) }, envs.clone()));
+        out.push((main(vec![], Expr::Let(false, vec![(n.to_string(), Expr::Prim(16, vec![v("P1"), lit(1)]))], Box::new(Expr::Prim(18, vec![v(n), v("P2")])))), envs.clone()));
+        out.push((main(vec![], Expr::Assign(vec![(Pat::Cons(Box::new(pv("W")), Box::new(pv(n))), Expr::Prim(4, vec![v("P1"), v("P2")]))], Box::new(Expr::Prim(17, vec![v(n), v("W")])))), envs.clone()));
+        out.push((main(vec![], Expr::Apply(Box::new(Expr::Lambda(vec!["P2".into()], pv(n), Box::new(Expr::Prim(17, vec![v(n), v("P2")])))), Box::new(Expr::List(vec![v("P1")])))), envs.clone()));
+    }
+    out
+}
+
 pub fn gen_opts(profile: &str) -> GenOpts {
     match profile {
         "core" => GenOpts::core(),
@@ -536,6 +568,7 @@ pub fn drive(args: &HashMap<String, String>) {
         progs.extend(at_ladder());
         progs.extend(const_ladder());
         progs.extend(mod_ladder());
+        progs.extend(name_ladder());
         // (TLC's JSON reader stops at 255 levels of nesting: two per addition)
         progs.extend(depth_ladder(n >= 100).into_iter().filter(|(p, _)| crate::util::json_depth(&p.to_json()) < 240));
     }
@@ -602,6 +635,16 @@ pub fn gen_programs(args: &HashMap<String, String>) {
             continue;
         }
         writeln!(f, "{}", json!({"name": format!("gen{i}:{b}"), "text": p.render(sigil_of(b))})).unwrap();
+    }
+    // ladder programs (names that are also operator names, nested programs, code-like constants): one dialect each, by turns
+    for (k, (p, _)) in name_ladder().into_iter().chain(mod_ladder()).chain(const_ladder()).enumerate() {
+        if k % 3 != 0 && n < 1000 {
+            continue;
+        }
+        let b = ["cl21", "cl23", "cl22", "cl24"][k % 4];
+        if renderable(&p, b) {
+            writeln!(f, "{}", json!({"name": format!("ladder{k}:{b}"), "text": p.render(sigil_of(b))})).unwrap();
+        }
     }
 }
 
